@@ -1010,4 +1010,57 @@ theorem written_request : Statement_written_request := by
   | nil => intro r; rfl
   | cons w rest ih => intro r; simp only [List.foldl_cons, List.map_cons, stepW_eq, ih]
 
+/-! ### the same graph under two spellings; a prepared request executed again -/
+
+/-- ADD / MOVE / COPY compare the graphs the two references DENOTE, not how they are written: whenever source and
+    destination resolve to the same graph — `DEFAULT` and the IRI of the default graph in either order, the
+    same IRI twice — the operation changes nothing -/
+def Statement_same_graph_noop : Prop :=
+  ∀ (d : Option Nat) (a b : GraphRef) (s : St), a.resolve d = b.resolve d →
+    evalAdd (a.resolve d) (b.resolve d) s = s ∧ evalMove (a.resolve d) (b.resolve d) s = s ∧
+    evalCopy (a.resolve d) (b.resolve d) s = s
+
+theorem same_graph_noop : Statement_same_graph_noop := by
+  intro d a b s h
+  simp [evalAdd, evalMove, evalCopy, h]
+
+/-- non-vacuity: with 99 the IRI of the default graph, `DEFAULT` and `<99>` are different spellings of one graph
+    (so COPY DEFAULT TO <99> keeps the default graph), while without such an IRI `<99>` is another graph -/
+example : GraphRef.dflt ≠ GraphRef.iri 99 ∧ GraphRef.dflt.resolve (some 99) = (GraphRef.iri 99).resolve (some 99) ∧
+    GraphRef.dflt.resolve none ≠ (GraphRef.iri 99).resolve none := by decide
+example : (evalCopy (GraphRef.dflt.resolve (some 99)) ((GraphRef.iri 99).resolve (some 99)) cycleStore).quads =
+    cycleStore.quads := by decide
+
+/-- A prepared request is an immutable list of operations; everything an execution changes — the quads, the
+    registered graphs AND the supply of fresh blank nodes — is in the dataset state it is run on.  Executing it
+    again from the state the first execution left (i) keeps `FreshInv` and never lowers the supply, so every
+    node the second execution mints (at or above the supply it starts with, `fresh_per_solution`) is different
+    from every node in the store, those of the first execution included; (ii) if the first execution did not
+    fail, the two executions together are the request `ops ++ ops` run once. -/
+def Statement_prepared_update_stateless : Prop :=
+  ∀ (c : Cfg) (ops : List Op) (s : St), (∀ op ∈ ops, op.wf) → FreshInv s →
+    let r1 := runRequest c ops s
+    let r2 := runRequest c ops r1.st
+    FreshInv r1.st ∧ FreshInv r2.st ∧ s.next ≤ r1.st.next ∧ r1.st.next ≤ r2.st.next ∧
+    (r1.failed = false → r2 = runRequest c (ops ++ ops) s)
+
+theorem prepared_update_stateless : Statement_prepared_update_stateless := by
+  intro c ops s hw h
+  have h1 := minted_nodes_new c ops s hw h
+  have h2 := minted_nodes_new c ops (runRequest c ops s).st hw h1.1
+  refine ⟨h1.1, h2.1, h1.2, h2.2, ?_⟩
+  intro hf
+  rw [request_in_order]
+  unfold runRequest at hf ⊢
+  congr 1
+  generalize List.foldl (Run.step c) { st := s, failed := false } ops = r at hf
+  cases r
+  simp_all
+
+/-- non-vacuity: `INSERT DATA { _:b :p :o }` executed twice mints two different nodes -/
+example :
+    let op : Op := .insertData [((.label 50, .const (.iri 4), .const (.iri 2)), .dflt)]
+    (runRequest plainGraph [op] (runRequest plainGraph [op] ⟨[], [], 0⟩).st).st.quads =
+      [(.fresh 0, .iri 4, .iri 2, none), (.fresh 1, .iri 4, .iri 2, none)] := by decide
+
 end RV.C10
